@@ -1,4 +1,4 @@
-From C17 Require Import Model Model2 Model3 Model4 ModelObj.
+From C17 Require Import Model Model2 Model3 Model4 Model5 ModelObj.
 Require Extraction.
 Require Import ExtrOcamlBasic.
 Extraction "model.ml" bint_zero bint_one fromuinteger frominteger touinteger tointeger
@@ -11,5 +11,6 @@ Extraction "model.ml" bint_zero bint_one fromuinteger frominteger touinteger toi
   bfromle bfrombe btole btobe todecsci_int demotefloat canbeintegral
   oget oset oupd o_new o_tobint o_abs o_inc o_dec o_max o_min o_bin o_bnot o_neg o_bit o_shift o_bwrap o_rot
   o_udivmod o_idivmod o_tdivmod o_ipow o_upowmod o_tobase o_tointeger o_compress
+  split_bin split_hex bn_from_text
   lua_tonumber_base lua_tostring_int lua_format_x BINT_WORDBITS
   BINT_SIZE uval sval.
